@@ -38,12 +38,14 @@ CLAIMED = {
             "actions are valid indices. Model tied to the code by bit-exact comparison of Q, counters, actions, rewards after every step.",
             "Trusted: Lean kernel; IEEE + - * / equal in Lean Float and CPython; the PRNG is a tape (recorded real stream + scripted boundary values).",
             "DESIGN.md §4 C19"),
-    "C13": ("Lean 4 proof (loop = digit-reflection sum by induction; cursor additivity over any batch-size list; prime table by kernel evaluation; R-sequence step law) + bit-exact differential run of halton(), the sieve and both sampler cursors",
+    "C13": ("Lean 4 proof (loop = digit-reflection sum by induction; cursor additivity over any batch-size list; prime table by kernel evaluation; R-sequence step law; the compute_phi loop stops only at the generalised golden ratio, which is unique) + bit-exact differential run of halton(), the sieve, both sampler cursors and compute_phi",
             "Proved in Lean: for every base >= 2 and index the halton() loop returns sum d_j b^-(j+1) over the base-b digits (in [0,1)); the k-th "
             "point of a batch at cursor s is point s+k and any list of batch sizes concatenates to one batch of the total (two of n = one of 2n); "
             "the sieve yields exactly the primes <= 173 in order for d <= 40; R-sequence points advance by alpha mod 1. Tied to halton.py / "
-            "r_sequence.py bit-for-bit (Float instance) and to exact rationals within 2^-50; phi/alpha are tolerance-checked numerics.",
-            "Trusted: Lean kernel; IEEE elementwise ops equal in Lean Float and numpy; PRNG as a recorded tape; pow() evaluation of phi not proved.",
+            "r_sequence.py bit-for-bit (Float instance) and to exact rationals within 2^-50. The compute_phi loop can stop only at a fixed point; under the exact-root contract of pow that "
+            "value satisfies phi^(d+1) = phi + 1, an equation with at most one non-negative solution; the step vector lies in (0,1), decreases and closes alpha_d(1+alpha_1) = 1; "
+            "compute_phi equals the model bit for bit for every dimension, alpha within 2 ulp (np.power is not pow).",
+            "Trusted: Lean kernel; IEEE elementwise ops equal in Lean Float and numpy; PRNG as a recorded tape; the C library pow behind Python and Lean; existence of the root over the reals not formalised.",
             "DESIGN.md §4 C13"),
     "C02": ("Lean 4 proof (invariant of the calibrator state machine over all components and all calibrate() sequences, by induction over the loop; prefix preservation; sort = permutation) + differential run of the real Calibrator with encoding stubs and recorded built-in samplers",
             "Proved in Lean for arbitrary model/loss/samplers/PRNG/fault plan and every list of calibrate(n) calls: all records have length nSampled; "
@@ -136,7 +138,8 @@ CLAIMED = {
             "for bit by the model from the recorded generator draws. The particle swarm is modelled whole (set-up, update of the bests, step, scaling): in every reachable state "
             "the global-best index points at a smallest personal-best loss; personal bests are the minimum of the losses in the particle's own slot of the history with the "
             "matching row; the cross-sampler attractor is the first lowest-loss row; after a step positions lie in the unit cube and the raw proposal within the bounds; the "
-            "real sampler's raw proposal and whole state equal the model's after every call.",
+            "real sampler's raw proposal and whole state equal the model's after every call. CORS: the density-decay counter runs 0,1,2,... without gaps over the life of an object, "
+            "the radius is positive inside the schedule, cubetobox inverts boxtocube and maps the cube into the bounds; radii and constraint counts equal the model bit for bit.",
             "Trusted: Lean kernel; np.argsort returns a sorting permutation (validated per case); scipy betabinom range; harness/vp/tape.py.",
             "DESIGN.md §4 C16"),
     "C08": ("Lean 4 proof (weighted-sum form of compute_loss for an arbitrary 1-d loss, coordinate-permutation invariance, zero weight, default 1/D, validation order, ensemble-permutation invariance, sign/zero of Minkowski and MSM cores) + bit-exact stub runs and purity/symmetry checks on every built-in loss",
